@@ -15,7 +15,8 @@ def sh(cmd, **k):
 
 
 def main():
-    only = sys.argv[1:]
+    own = '--own' in sys.argv        # only the check of the seed's own property
+    only = [a for a in sys.argv[1:] if not a.startswith('--')]
     bad = 0
     if sh(['git', '-C', '/repo', 'status', '--short'])[1].strip():
         print('/repo not clean'); return 2
@@ -25,7 +26,7 @@ def main():
         if not os.path.exists(mp) or (only and not any(sid.startswith(o) for o in only)):
             continue
         meta = json.load(open(mp))
-        checks = sorted(set([meta['property']] + list(meta.get('caught_by', []))))
+        checks = [meta['property']] if own else sorted(set([meta['property']] + list(meta.get('caught_by', []))))
         rc, out = sh(['git', '-C', '/repo', 'apply', os.path.join(d, 'patch.diff')])
         if rc != 0:
             print(sid, 'patch does not apply'); bad += 1; continue
